@@ -240,7 +240,7 @@ func (f *ReceiveForm) Transition(process *Process, re *RuntimeEnvironment) {
 
 			new_body := f.continuation_e
 			new_body.Substitute(f.payload_c, message.Channel1)
-			new_body.Substitute(f.continuation_c, NewSelf(message.Channel2.Ident))
+			new_body.Substitute(f.continuation_c, NewSelf(""))
 
 			process.finishedRule(RCV, "[receive, provider]", "(p)", re)
 			// Terminate the current provider to replace them with the one being received
@@ -487,7 +487,7 @@ func (f *CaseForm) Transition(process *Process, re *RuntimeEnvironment) {
 					found = true
 					new_body = j.continuation_e
 					// Substitute the payload with 'self'
-					new_body.Substitute(j.payload_c, NewSelf(message.Channel1.Ident))
+					new_body.Substitute(j.payload_c, NewSelf(""))
 					break
 				}
 			}
@@ -939,7 +939,7 @@ func (f *ShiftForm) Transition(process *Process, re *RuntimeEnvironment) {
 			}
 
 			new_body := f.continuation_e
-			new_body.Substitute(f.continuation_c, NewSelf(message.Channel1.Ident))
+			new_body.Substitute(f.continuation_c, NewSelf(""))
 
 			process.finishedRule(SHF, "[shift, provider]", "(p)", re)
 			// Terminate the current provider to replace them with the one being received
